@@ -284,3 +284,103 @@ func VerifC14_TextRoundTrip() {
 		zzverif.Cover("implicit-condition")
 	}
 }
+
+// verifShape builds a query tree of the given depth whose shape the executor
+// chooses: a condition (taken in order from a pool of distinct ones), or an
+// AND / OR of two or three sub-trees.
+var verifShapeLeaf int
+
+func verifShape(depth int) QueryNode {
+	pool := []QueryNode{
+		NewCondition(PropertyTypeAttribute, AttributeName, OpEqual, "bob"), NewCondition(PropertyTypeField, "age", OpLessThan, "18"),
+		NewCondition(PropertyTypeField, "age", OpGreaterThan, "65"), NewCondition(PropertyTypeField, "nick", OpNotEqual, ""),
+		NewCondition(PropertyTypeAttribute, AttributeLanguage, OpEqual, "eng"), NewCondition(PropertyTypeField, "nick", OpEqual, "bobby"),
+		NewCondition(PropertyTypeAttribute, AttributeName, OpNotEqual, "jim"), NewCondition(PropertyTypeField, "age", OpEqual, "40"),
+	}
+	kind := 0
+	if depth > 1 {
+		kind = zzverif.Choice("node", 3) // condition, AND, OR
+	}
+	leaf := func() QueryNode {
+		verifShapeLeaf++
+		return pool[(verifShapeLeaf-1)%len(pool)]
+	}
+	if kind == 0 {
+		return leaf()
+	}
+	// one child may itself be a combination (first or last), the others are
+	// conditions; two or three children
+	var children []QueryNode
+	if zzverif.Choice("nested-child-last", 2) == 1 {
+		children = []QueryNode{leaf(), verifShape(depth - 1)}
+	} else {
+		children = []QueryNode{verifShape(depth - 1), leaf()}
+	}
+	if zzverif.Choice("third-child", 2) == 1 {
+		children = append(children, leaf())
+	}
+	op := BoolOperatorAnd
+	if kind == 2 {
+		op = BoolOperatorOr
+	}
+	return NewBoolCombination(op, children...)
+}
+
+func verifDepthOps(n QueryNode) (int, string) {
+	bc, ok := n.(*BoolCombination)
+	if !ok {
+		return 1, ""
+	}
+	best, path := 0, ""
+	for _, c := range bc.Children() {
+		if d, p := verifDepthOps(c); d > best {
+			best, path = d, p
+		}
+	}
+	return best + 1, strings.ToUpper(string(bc.Operator())) + ">" + path
+}
+
+// VerifC14_Structure: "formatting the parsed query and parsing that text
+// again gives a structurally identical query (same conditions, operators,
+// values and boolean structure)", for the boolean structure: every tree of
+// AND / OR combinations of two or three children (one of which may itself
+// be a combination, first or last) up to three levels deep (four in the
+// thorough tier) over distinct conditions — built
+// programmatically, and the query the parser makes of its text — formats to
+// text that parses back to the same simplified tree, and formatting is stable
+// after one round.
+// cover: flat, two-levels, three-levels, or-and-or, and-or-and
+func VerifC14_Structure() {
+	depth := 4
+	if zzverif.Thorough() {
+		depth = 5
+	}
+	verifShapeLeaf = 0
+	q := verifShape(depth)
+	if _, isCombination := q.(*BoolCombination); !isCombination {
+		return
+	}
+	env, res := envs.NewBuilder().Build(), verifResolver()
+	zzverif.Assert(q.validate(env, res) == nil, "setup: query not valid")
+	want := q.Simplify()
+	d, ops := verifDepthOps(want)
+	switch d {
+	case 2:
+		zzverif.Cover("flat")
+	case 3:
+		zzverif.Cover("two-levels")
+	default:
+		zzverif.Cover("three-levels")
+	}
+	if strings.HasPrefix(ops, "OR>AND>OR") {
+		zzverif.Cover("or-and-or")
+	}
+	if strings.HasPrefix(ops, "AND>OR>AND") {
+		zzverif.Cover("and-or-and")
+	}
+	text := Stringify(want)
+	back, err := ParseQuery(env, text, res)
+	zzverif.Assert(err == nil, "the text of a valid query does not parse")
+	zzverif.Assert(verifDumpQuery(back.Root()) == verifDumpQuery(want), "the text of a query parses back to a query of another boolean structure")
+	zzverif.Assert(back.String() == text, "formatting is not stable after one round")
+}
